@@ -20,7 +20,7 @@ func runC11(c *Ctx) {
 	c11R1(c, "R1")
 	c11R2(c, "R2")
 	c11R3(c, "R3")
-	contextGuards(c, "R4")
+	scopeAgreement(c, "R4")
 	c11R5(c, "R5")
 	c11R6(c, "R6")
 }
